@@ -54,6 +54,8 @@ type removeObs struct {
 	CacheHash  string
 	ViaDone    bool
 	StillThere bool
+	At         time.Time // virtual wall clock at the release
+	SrcMTime   time.Time // modification time of the source file at that moment
 }
 
 type e2eOutcome struct {
@@ -163,7 +165,10 @@ func e2eRun(c *Ctx, seed int64, spec *e2eSpec, dir string) *e2eOutcome {
 		}
 	}
 	observe := func(name, path string, viaDone bool, cacheHash string) removeObs {
-		ob := removeObs{Name: name, VT: w.vt(), Gen: w.sndGen, ViaDone: viaDone, CacheHash: cacheHash}
+		ob := removeObs{Name: name, VT: w.vt(), Gen: w.sndGen, ViaDone: viaDone, CacheHash: cacheHash, At: time.Now()}
+		if fi, serr := os.Stat(path); serr == nil {
+			ob.SrcMTime = fi.ModTime()
+		}
 		b, err := os.ReadFile(path)
 		if err == nil {
 			ob.SrcMD5 = md5hex(b)
@@ -815,6 +820,15 @@ func oracleRelease(o *e2eOutcome, v vfn) {
 		}
 		if !r.StillThere {
 			continue // nothing left to lose (file vanished before)
+		}
+		if !r.ViaDone {
+			// the tag's deletion settings: off means never, a delay means not before the
+			// file is that old
+			if tag := o.w.tagOf(r.Name); tag == nil || !tag.Delete {
+				v("C02", "deleted-only-when-configured", "deleted-although-delete-is-off", fmt.Sprintf("Store.Remove of %s at %s: the tag that matches the name does not delete", r.Name, r.VT))
+			} else if tag.DeleteDelay > 0 && !r.SrcMTime.IsZero() && r.At.Sub(r.SrcMTime) <= tag.DeleteDelay {
+				v("C02", "deleted-only-after-delete-delay", "deleted-before-delete-delay", fmt.Sprintf("Store.Remove of %s at %s: the file was modified %s before, the tag's delete-delay is %s", r.Name, r.VT, r.At.Sub(r.SrcMTime), tag.DeleteDelay))
+			}
 		}
 		if !(r.HeldFinal || r.HeldWait) {
 			fp := "release-without-validated-copy"
